@@ -184,7 +184,8 @@ func runLife(t *testing.T, cfg lifeCfg) (out lifeOutcome) {
 		time.Sleep(time.Second)
 		synctest.Wait()
 		if cfg.Peers > 0 && peer.NumUnchoking() != cfg.Peers {
-			prob("C17/harness-setup", "expected %d unchoked peers before the scenario, NumUnchoking()=%d", cfg.Peers, peer.NumUnchoking())
+			// not a property: only makes the accounting clause below vacuous
+			out.results = append(out.results, fmt.Sprintf("setup: %d of %d peers unchoked", peer.NumUnchoking(), cfg.Peers))
 		}
 		var readerDone chan error
 		if cfg.Reader {
@@ -315,7 +316,7 @@ func runLife(t *testing.T, cfg lifeCfg) (out lifeOutcome) {
 				}
 			}
 			if nu := peer.NumUnchoking(); nu != 0 {
-				prob("C17/unchoked-peers-left", "NumUnchoking()=%d after the torrent was deleted and all its peers are gone", nu)
+				prob("C16/num-unchoking-after-delete", "NumUnchoking()=%d after the torrent was deleted and all its peers are gone", nu)
 			}
 			if d := alloc.Bytes() - base; d != 0 {
 				prob("C17/memory-not-released", "%d bytes of piece memory are still allocated after the torrent was deleted", d)
@@ -351,20 +352,30 @@ func wrapInfo(info []byte) []byte {
 	return append(append([]byte("d4:info"), info...), 'e')
 }
 
-func TestVerifC17(t *testing.T) {
+func TestVerifC17(t *testing.T) { verifLife(t, "C17") }
+
+// TestVerifC16Life runs the same life-cycle scenarios (the real run() loop with
+// real peers) for C16's accounting clause: the number of unchoked peers
+// storrent accounts for is zero once the torrent and its peers are gone.
+func TestVerifC16Life(t *testing.T) { verifLife(t, "C16") }
+
+func verifLife(t *testing.T, prop string) {
 	if os.Getenv("VERIF_OUT") == "" && vh.ReplayFile() == "" {
 		t.Skip("verif harness: run through /verif/run")
 	}
-	res := vh.NewResult("C17")
+	res := vh.NewResult(prop)
+	if prop != "C17" {
+		res.FileOffset = 60
+	}
 	defer func() {
-		vh.ClearCheckpoint("C17")
+		vh.ClearCheckpoint(prop)
 		if err := res.Write(); err != nil {
 			t.Error(err)
 		}
 	}()
 	judge := func(cfg lifeCfg) {
-		vh.CheckpointKey("C17", "C17/crash", cfg)
-		stop := vh.Guard("C17", "C17", cfg, 120*time.Second)
+		vh.CheckpointKey(prop, prop+"/crash", cfg)
+		stop := vh.Guard(prop, prop, cfg, 120*time.Second)
 		o := runLife(t, cfg)
 		stop()
 		res.Add("transitions", int64(len(cfg.Ops)+2))
@@ -376,7 +387,7 @@ func TestVerifC17(t *testing.T) {
 		}
 		res.Distinct("outcomes", strings.Join(o.results, ","))
 		for _, p := range o.problems {
-			if res.HasViolation(p.Key) {
+			if res.HasViolation(p.Key) || strings.HasPrefix(p.Key, "C16/") != (prop == "C16") {
 				continue
 			}
 			hits := 0
